@@ -876,7 +876,24 @@ def exchange_sent_once_or_twice_after_413(st0: int, st1: int, boom0: bool, boom1
     return True
 
 
-@cond(q=30, t=120, encoded=[cl.HttpStreamSession.exchange, cl.HttpStreamSession.cancel], bound="state present/absent, finished flag, any status 100..999, transport failure; session retry config None or max_retries 0..3")
+def _replay_cancel(args: dict) -> str | None:
+    client = _CountingClient([(args["boom0"], args["st0"], args["good0"])] + [(False, 200, True)] * 5)
+    s = _mk_session(client, b"tok" if args["has_state"] else None, finished=args["finished"], retry=_retry_cfg(args["has_retry"], args["mr"]))
+    try:
+        s.cancel()
+        s.cancel()
+    except Exception as e:  # noqa: BLE001
+        return f"cancel() raised {e!r}"
+    want = 1 if (args["has_state"] and not args["finished"]) else 0
+    if len(client.posts) != want or client.other:
+        return f"cancel() (twice) sent {len(client.posts)} POSTs, expected {want} (first answer: {'transport error' if args['boom0'] else args['st0']}, retry config max_retries={args['mr'] if args['has_retry'] else None})"
+    if not s._finished or s._state_bytes is not None:
+        return "session still live after cancel()"
+    return None
+
+
+@cond(q=30, t=120, replay=_replay_cancel, signature=lambda a, c: "C38:cancel:resent-or-not-final",
+      encoded=[cl.HttpStreamSession.exchange, cl.HttpStreamSession.cancel], bound="state present/absent, finished flag, any status 100..999, transport failure; session retry config None or max_retries 0..3")
 def cancel_sent_at_most_once_and_final(has_state: bool, finished: bool, st0: int, boom0: bool, good0: bool, has_retry: bool, mr: int) -> bool:
     """
     pre: 100 <= st0 <= 999 and 0 <= mr <= 3
